@@ -271,11 +271,116 @@ def k2_key(rep: Report) -> None:
         rep.candidate(key, "two option vectors differing on a keyed option have equal snapshots", m, replay)
 
 
+# list options whose order is semantic: ChainedPlugin consults plugins in configuration order and
+# the first plugin that returns a hook wins (mypy/plugin.py, ChainedPlugin._find_hook)
+ORDER_SEMANTIC = {"plugins"}
+
+
+def k2b_nonbool_key(rep: Report) -> None:
+    """Keyed options that are not flags: two symbolic values per option (lists / sets of up to two
+    symbolic names, symbolic strings); equal snapshots must imply equal option values -- as ordered
+    lists where the order is semantic (plugins), as sets otherwise."""
+    from mypy.options import OPTIONS_AFFECTING_CACHE_NO_PLATFORM, Options
+
+    K = Kernel("mypy.options", ["Options.select_options_affecting_cache"], closure=False)
+    sel = K["Options.select_options_affecting_cache"]
+    proto = Options()
+    opts = [o for o in list(OPTIONS_AFFECTING_CACHE_NO_PLATFORM) + ["platform"] if not isinstance(getattr(proto, o), bool)]
+    found: dict[str, tuple] = {}
+    n = {"p": 0, "same": 0}
+
+    class Code:
+        def __init__(self, code: Any):
+            self.code = code
+
+    for opt in opts:
+        default = getattr(proto, opt)
+        ctx = Ctx()
+
+        def mk(c: Ctx, tag: str) -> tuple[Any, list]:
+            if isinstance(default, str):
+                v = c.int(f"{tag}.{opt}", 0, 3)  # a name, identified by its rank in string order
+                return v, [v]
+            ln = c.choose(f"{tag}.{opt}.len", 3)
+            elems = [c.int(f"{tag}.{opt}[{i}]", 0, 3) for i in range(ln)]
+            if ln == 2:
+                c.assume(elems[0].t != elems[1].t)  # no duplicate entries
+            if isinstance(default, set):
+                return {Code(e) for e in elems}, elems
+            return list(elems), elems
+
+        def body(c: Ctx) -> None:
+            a, b = Options(), Options()
+            va, ea = mk(c, "A")
+            vb, eb = mk(c, "B")
+            setattr(a, opt, va)
+            setattr(b, opt, vb)
+            pa, la = sel(a)
+            pb, lb = sel(b)
+            n["p"] += 1
+
+            def eq(x: Any, y: Any) -> Any:
+                if isinstance(x, (list, tuple)) and isinstance(y, (list, tuple)):
+                    if len(x) != len(y):
+                        return z3.BoolVal(False)
+                    return z3.And(*[eq(p, q) for p, q in zip(x, y)]) if x else z3.BoolVal(True)
+                if symx.is_sym(x) or symx.is_sym(y):
+                    return symx.to_z3int(x) == symx.to_z3int(y)
+                return z3.BoolVal(x == y)
+
+            same_snapshot = z3.And(eq(pa, pb), z3.BoolVal(len(la) == len(lb)), *[eq(x, y) for x, y in zip(la, lb)])
+            if isinstance(default, str):
+                same_value = ea[0].t == eb[0].t
+            elif opt in ORDER_SEMANTIC:
+                same_value = eq(ea, eb)
+            else:
+                same_value = z3.And(z3.BoolVal(len(ea) == len(eb)), *[z3.Or(*[x.t == y.t for y in eb]) for x in ea])
+            if c.feasible(same_snapshot):
+                n["same"] += 1
+            ok = c.check(z3.Implies(same_snapshot, same_value), f"{opt}: equal snapshot => equal value")
+            if not ok and c.cex:
+                m = c.cex[-1].model
+                found.setdefault(f"two different values of the keyed option {opt} give the same cache key", (opt, m))
+
+        ctx.explore(body)
+        rep.add_ctx(f"K2b snapshot sensitivity: {opt}", ctx, kind=type(default).__name__, order_semantic=opt in ORDER_SEMANTIC)
+    rep.twin("K2b reached, equal snapshots feasible", n["p"] > 0 and n["same"] > 0)
+    for key, (opt, m) in found.items():
+        rep.sample({"kernel": "K2b", "class": key, "model": {k: v for k, v in m.items() if opt in k}})
+
+        def replay(d: str, opt: str = opt, m: dict = m) -> tuple[bool, str]:
+            from mypy import errorcodes
+
+            default = getattr(Options(), opt)
+            names = ["n0.py", "n1.py", "n2.py", "n3.py"]
+            ecs = sorted(errorcodes.error_codes.values(), key=lambda e: e.code)[:4]
+
+            def conc(tag: str) -> Any:
+                if isinstance(default, str):
+                    return names[int(m.get(f"{tag}.{opt}", 0))]
+                ln = int(m.get(f"{tag}.{opt}.len", 0))
+                idx = [int(m.get(f"{tag}.{opt}[{i}]", 0)) for i in range(ln)]
+                if isinstance(default, set):
+                    return {ecs[i] for i in idx}
+                return [names[i] for i in idx]
+
+            a, b = Options(), Options()
+            va, vb = conc("A"), conc("B")
+            setattr(a, opt, va)
+            setattr(b, opt, vb)
+            same = a.select_options_affecting_cache() == b.select_options_affecting_cache()
+            differ = (va != vb) if (opt in ORDER_SEMANTIC or isinstance(default, (str, set))) else (set(va) != set(vb))
+            return bool(same and differ), f"{opt} = {va!r} and {opt} = {vb!r} give {'the same' if same else 'different'} select_options_affecting_cache() snapshots"
+
+        rep.candidate(key, f"option {opt}: {m}", m, replay)
+
+
 def main(args: Any) -> int:
     rep = Report(PID, args.tier, "symbolic execution (symx/z3) of the real render/format functions under an Options proxy whose reads are symbolic per run; key sensitivity on symbolic option vectors; replay = two real runs sharing a cache vs a cold run")
     rep.bounds += [
         "K1: one file with five diagnostics (function / method / top-level contexts, an import chain, a note, a duplicate); every bool option read is symbolic per run (keyed options equal in both runs); non-bool options at their defaults",
         "K2: all bool options of OPTIONS_AFFECTING_CACHE symbolic in two vectors",
+        "K2b: each non-flag keyed option on its own (the others at their defaults): two symbolic values, lists/sets of at most two distinct names out of four, strings one of four names; plugins compared as an ordered list, the other collections as sets",
     ]
     rep.assumptions += ["hash of the snapshot treated as injective", "the working directory (ignore_prefix) is the same in both runs"]
     rep.outside += ["completeness of OPTIONS_AFFECTING_CACHE with respect to options read inside the semantic analyser / checker (e.g. --warn-redundant-casts): needs whole-program runs per option; NOT claimed"]
@@ -284,6 +389,7 @@ def main(args: Any) -> int:
         k1_replay_path(rep)
     if only is None or "K2" in only:
         k2_key(rep)
+        k2b_nonbool_key(rep)
     return rep.finish()
 
 
